@@ -1039,6 +1039,7 @@ class Parser:
         self.expect('colon')
         colon = self.create_node(SymbolNode, self.previous)
         items = self.statement()
+        self.expect('eol')
         block = self.codeblock()
         endforeach = self.create_node(SymbolNode, self.current)
         return self.create_node(ForeachClauseNode, foreach_, varnames, commas, colon, items, block, endforeach)
